@@ -6,7 +6,8 @@ record does not change when an `if` is inverted and its branches are swapped (`i
 flipped or the boundary moved while the branches stay.  rules/guards_frozen.json holds the records of the pinned tree
 (tools/freeze_guards.py); the rule compares, per function and operand pair that still exists, the leave-early
 conditions.  Branches where both or neither edge leave at once (value selection, two substantial arms, loop
-conditions) have no defined polarity and are not recorded.  Boolean conditions that are not comparisons (a flag, a predicate call such as `is_empty()`)
+conditions) have no defined polarity and are not recorded.  Inside a loop the same is done relative to the
+iteration: the edge that reaches the loop header again (`continue`) or leaves the loop (`break`) within a few blocks.  Boolean conditions that are not comparisons (a flag, a predicate call such as `is_empty()`)
 are recorded the same way: "left early when it is true / false"."""
 import json, os
 import argsel
@@ -62,6 +63,49 @@ def _leaves_at_once(b, start, limit=16):
     return reached
 
 
+def _leaves_iteration_at_once(b, start, loop, limit=16):
+    """inside a loop: every path from block start reaches the loop header again (continue) or leaves the loop (break /
+    return) within a few blocks, without a suspension point"""
+    header, blocks = loop
+    seen, todo = set(), [start]
+    own = 0
+    reached = False
+    while todo:
+        x = todo.pop()
+        if x in seen:
+            continue
+        if x == header or x not in blocks:
+            reached = True
+            continue
+        seen.add(x)
+        if b.blocks[x].get('cleanup'):
+            continue
+        t = b.term(x)
+        k = t.get('t')
+        macro = t.get('x', '').startswith('m:')
+        if not macro:
+            own += 1
+            if own > limit:
+                return False
+        if len(seen) > 400 or k == 'yield':
+            return False
+        if k in ('unreachable', 'resume'):
+            continue
+        if k == 'return':
+            reached = True
+            continue
+        todo.extend(s_ for s_ in b.succ(x) if not b.blocks[s_].get('cleanup'))
+    return reached
+
+
+def _innermost_loop(loops, bb):
+    best = None
+    for h, bl in loops:
+        if bb in bl and (best is None or len(bl) < len(best[1])):
+            best = (h, bl)
+    return best
+
+
 _CALL_OPS = {'lt': 'Lt', 'le': 'Le', 'gt': 'Gt', 'ge': 'Ge', 'eq': 'Eq', 'ne': 'Ne'}
 
 
@@ -83,6 +127,24 @@ def sites(ctx, fn):
         if not (d == fn or d.startswith(fn + '::{closure')) or '__CALLSITE' in d:
             continue
         b = ctx.body(d)
+        loops = None
+
+        def polarity(bb, tt, tf):
+            """(leaving edge is the true edge?, suffix) or None when the branch has no defined polarity"""
+            nonlocal loops
+            lt_, lf_ = _leaves_at_once(b, tt), _leaves_at_once(b, tf)
+            if lt_ != lf_:
+                return lt_, ''
+            if loops is None:
+                from lib import natural_loops
+                loops = natural_loops(b)
+            lp = _innermost_loop(loops, bb)
+            if lp is None or bb == lp[0]:
+                return None
+            lt_, lf_ = _leaves_iteration_at_once(b, tt, lp), _leaves_iteration_at_once(b, tf, lp)
+            if lt_ != lf_:
+                return lt_, ' @@ <iteration>'
+            return None
         for bb, t, _e in switch_exprs(b):
             if t.get('ty') != 'bool':
                 continue
@@ -95,16 +157,18 @@ def sites(ctx, fn):
                 # a boolean that is not a comparison (a flag, a predicate call): recorded as "left early when it is true / false"
                 if e[0] not in ('call', 'field', 'param', 'upvar') or (e[0] == 'call' and e[1].split('::')[-1] in ('poll', 'next', 'branch')):
                     continue
-                lt_, lf_ = _leaves_at_once(b, tt), _leaves_at_once(b, tf)
-                if lt_ == lf_:
+                pol = polarity(bb, tt, tf)
+                if pol is None:
                     continue
+                lt_, suffix = pol
                 val = tr if lt_ else (not tr)      # value of e on the leaving edge
-                out.setdefault(canon(e, 0, 1) + ' @@ <bool>', set()).add('true' if val else 'false')
+                out.setdefault(canon(e, 0, 1) + ' @@ <bool>' + suffix, set()).add('true' if val else 'false')
                 continue
             op_, lhs_, rhs_ = cmp_
-            lt_, lf_ = _leaves_at_once(b, tt), _leaves_at_once(b, tf)
-            if lt_ == lf_:
+            pol = polarity(bb, tt, tf)
+            if pol is None:
                 continue
+            lt_, suffix = pol
             A, B = canon(lhs_, 0, 1), canon(rhs_, 0, 1)
             cases = set(_CASES[op_])
             if not tr:
@@ -114,7 +178,7 @@ def sites(ctx, fn):
             if B < A:
                 A, B = B, A
                 cases = {_SWAP[c] for c in cases}
-            out.setdefault(A + ' @@ ' + B, set()).add(','.join(sorted(cases)))
+            out.setdefault(A + ' @@ ' + B + suffix, set()).add(','.join(sorted(cases)))
         # predicates: a closure or function whose result *is* the comparison (`.find(|x| x.name == name)`, `fn is_x() { a < b }`)
         for bb in sorted(b.reach):
             cands = []
@@ -157,7 +221,7 @@ def collect(ctx):
     return out
 
 
-FLOORS = {'C01': 62, 'C02': 62, 'C03': 85, 'C04': 54, 'C05': 44, 'C06': 53, 'C07': 9, 'C08': 9, 'C09': 56, 'C10': 38, 'C11': 4, 'C12': 53, 'C13': 197, 'C14': 56, 'C15': 23, 'C16': 134, 'C17': 44, 'C18': 28, 'C19': 31, 'C20': 30}   # ~70 % of the guards counted on the pinned tree
+FLOORS = {'C01': 69, 'C02': 69, 'C03': 97, 'C04': 61, 'C05': 49, 'C06': 60, 'C07': 13, 'C08': 9, 'C09': 58, 'C10': 38, 'C11': 7, 'C12': 60, 'C13': 211, 'C14': 65, 'C15': 31, 'C16': 147, 'C17': 52, 'C18': 34, 'C19': 36, 'C20': 35}   # ~70 % of the guards counted on the pinned tree
 
 
 def check(ctx, rep, prop):
@@ -178,10 +242,11 @@ def check(ctx, rep, prop):
             ok = cur[key] == want
             parts = key.split(' @@ ')
             a_, b_ = parts[0], parts[1]
+            where_ = 'the iteration' if parts[-1] == '<iteration>' else 'the function'
             if parts[-1] == '<result>':
                 msg = 'the predicate comparing `%s` with `%s` now holds when {%s} (pinned tree: when {%s})' % (a_, b_, ' | '.join(cur[key]), ' | '.join(want))
             else:
                 what = ('on `%s`' % a_) if b_ == '<bool>' else ('comparing `%s` with `%s`' % (a_, b_))
-                msg = '%s, the function now leaves early when {%s} (pinned tree: when {%s})' % (what, ' | '.join(cur[key]), ' | '.join(want))
+                msg = '%s, %s is now left early when {%s} (pinned tree: when {%s})' % (what, where_, ' | '.join(cur[key]), ' | '.join(want))
             rep.ob(rid, fn, key[:140], ok, None, None if ok else msg)
     return n
